@@ -299,7 +299,7 @@ func main() {
 			"A case is one (function, argument tuple); it is non-trivial when a finite reference value (or an exact zero / exact -Inf) is compared numerically, or an identity is evaluated with all members finite; points are distinct by construction (deduplicated lattices)",
 		Assume: []string{
 			"reference tables were generated with mpmath 1.3.0 at 60 digits (ref/c13/gen.py) and are verified by sha256 at start",
-		"the references of the incomplete gamma family and of Bessel I on the range lattice L6 (0 < |x| <= 1) are computed by the harness itself: convergent power series in 256-bit arithmetic (ref6.go, bigmath.go) with Gamma(a), psi(a), 1/Gamma(nu+1), psi(nu+1) from the committed mpmath table `shape` (50 digits); at every run this computed reference is compared with the mpmath rows of the tier that lie in its domain (thorough: all, quick: every seventh point; agreement to 1e-18 relative, sensitivities to 0.5 %), a disagreement is a harness error",
+			"the references of the incomplete gamma family and of Bessel I on the range lattice L6 (0 < |x| <= 1) are computed by the harness itself: convergent power series in 256-bit arithmetic (ref6.go, bigmath.go) with Gamma(a), psi(a), 1/Gamma(nu+1), psi(nu+1) from the committed mpmath table `shape` (50 digits); at every run this computed reference is compared with the mpmath rows of the tier that lie in its domain (thorough: all, quick: every seventh point; agreement to 1e-18 relative, sensitivities to 0.5 %), a disagreement is a harness error",
 			"tolerance C*u*max(1,cond)*|ref| with C=256 and cond = sum of |arg * df/darg / f| from the reference side; results below 1e-290 or above 1e300 are only required to under/overflow gracefully",
 			"math.Gamma/Lgamma/Erfc/Exp/Log of the Go runtime are trusted to a few ulp; math.Log of go1.23 on amd64 (log_amd64.s) is wrong for subnormal arguments (Log(5e-324) = -709.09 instead of -744.44), so the two-argument lattices (the range lattice L6 included) keep x >= 2^-1000, where neither x nor the x/10 and x/a formed by the library is subnormal",
 			"BernoulliNumber(1) may be +1/2 or -1/2",
